@@ -78,6 +78,42 @@ claim("C25",
   TB + "Per axis with the tuple glue proved (C25_fuseTuple_axiswise); return_stored/load_stored and the npy stack are correspondence/search only.",
   "DESIGN.md §4 C25")
 
+claim("C15",
+  "Lean 4 theorems over a model of the rechunk planner and crosswalk (float-derived choices as oracle parameters) + correspondence incl. whole plan_rechunk runs with recorded oracle values + brute-force validation of real plans",
+  "16 theorems: crosswalk exact (all chunkings incl. zero-width); divide_to_width / merge_to_number preserve the total, bound width/count, only merge neighbours; every plan of the model is a list of chunkings of the same shape ending in new; under the checked oracle relations every step (merge/split and degree passes) has largest block <= max(limit/itemsize, largest old, largest new).",
+  TB + "Termination of the while-True loop is not proved (fuel in the model, watchdog in the search). Floats are never reasoned about: oracle values are recorded from the real run and their relations checked per case.",
+  "DESIGN.md §4 C15")
+claim("C14",
+  "Lean 4 theorems on the data-level reading of the crosswalk + correspondence (spec resolution, balance, intersect_chunks, the _compute_rechunk task graph) + NumPy/normalize_chunks search over all spec kinds, unknown sizes and rechunks inside random programs",
+  "6 theorems (one axis, all chunkings incl. zero-width): assembling each new block from the crosswalk pieces yields exactly its positions; any chain of stages preserves the data; explicit spec kinds and balance=True preserve axis length. End-to-end: .chunks equals the documented resolution and values equal NumPy for 10 spec kinds x 12 graph shapes; unknown sizes allowed on unchanged axes and refused on changed ones.",
+  TB + "n-D layers are products of per-axis crosswalks: compared with the model each run, proved per axis only. 'auto'/byte-limit expectations call normalize_chunks (C16). P2P rechunk unavailable offline. Pushdown rules are search-only here (C02).",
+  "DESIGN.md §4 C14")
+claim("C22",
+  "PARTIAL: pure Rust planning kernels extracted from crates/dask-array-python/src on every run, compiled with rustc, compared three-way (Rust vs Lean model vs Python) + check that every _frisky_layer declines without the extension and the Python path serves the same graph",
+  "3 theorems (one model serves Python and Rust): crosswalk exact for cum/breakpoints/intersect_1d; partition_all runs flatten to the input, non-empty and <= size. Three-way correspondence for those and searchsorted_right; two-way for the other std-only kernels.",
+  TB + "dask_array._rust cannot be built offline (pyo3 missing): #[pymethods] expansion code, to_dask_graph/to_task_records/to_records_chunk encodings and the build-generation guard are NOT executed. Trusted: rustc, the generated std-only wrapper, brace-matching extraction.",
+  "DESIGN.md §4 C22, §7")
+claim("C06",
+  "Lean 4 theorems over a free-term model of expression names and a name-keyed cache; coverage premise decided (decide +kernel) over a table generated from the source by an AST translator; tied by a run-time name->content registry, operand perturbation and graph-key merging",
+  "10 theorems: if every class's semantic operands are among those its name tokenizes, equal names imply equal denotation and chunks (any depth); a name-keyed insert-if-absent cache stays sound under every history; C06_table_covers decides the premise for the 111 ArrayExpr classes of the current tree minus listed pinned-name classes.",
+  TB + "tokenize is assumed collision-free (names are a free term algebra); the translator's AST approximation is validated every run by perturbation; pinned/hand-built names are covered only by the run-time registry.",
+  "DESIGN.md §4 C06")
+claim("C07",
+  "Lean 4 theorems over a model of tokens with process-dependent operands and carried tokens (pickle round trip, getstate) + generated tables for __reduce__/__getstate__ and hidden-state reads in naming code; tied by rebuilding programs in-process and in fresh subprocesses with other hash seeds and by pickle round trips",
+  "7 theorems: the rebuilt node and every node of its tree keep their names for all pairs of processes; names depend on the process only through unstable operands not shielded by a carried token; getstate drops only recomputable caches; decided on the current tree: __reduce__ carries the token, naming code reads id/uuid/random only at 13 documented sites.",
+  TB + "Partial: determinism across processes is sampled (other hash seeds x programs), not proved; the site scan is an AST approximation; untokenizable sources are held to per-instance stability only.",
+  "DESIGN.md §4 C07")
+claim("C28",
+  "Lean 4 model of the nan-size guards, ChunksOverride and per-block mask selection with theorems + exhaustive small-domain correspondence with the real helpers + NumPy-oracle search over data-dependent selections x follow-on ops before/after compute_chunk_sizes",
+  "14 theorems: compute_chunk_sizes exactness for mask selections (all chunkings and masks, 1-D and per axis); parametricity of the slicing and rechunk guards in the unknown sizes; rechunk guard iff; override. The unify guard is only partial, with a refuting witness (the corresponding real defect is a listed known finding).",
+  TB + "Seven selection kinds and ~50 follow-on ops are covered by search only. 8 known findings listed and probed.",
+  "DESIGN.md §4 C28")
+claim("C20",
+  "Lean 4 model of block_info payloads, the broadcast rule and ChunksFreeze lowering with theorems + correspondence with recorded payloads and ChunksFreeze.lower_once + recording-function search with producers below and consumers above the call",
+  "6 theorems: array-location extents tile each axis, chunk shape = extent lengths = advertised chunks, for all layouts and block ids; whatever layout the optimized child settles on, the lowered freeze node has exactly the frozen layout, so the delivered block has the promised shape; broadcast rule well-defined.",
+  TB + "'Whatever rewrites optimization applies' rests on C20_freeze quantifying over all settled layouts plus the search under both optimize settings.",
+  "DESIGN.md §4 C20")
+
 
 def build():
     props = [json.loads(l) for l in (VERIF / "properties.jsonl").read_text().splitlines() if l.strip()]
